@@ -86,6 +86,15 @@ func (v *PacketDslVisitorImpl) VisitPacket(ctx *gen.PacketContext) interface{} {
 		for _, decl := range metaDataDifinition.GetChildren() {
 			switch c := decl.(type) {
 			case *gen.RefMetaDataDeclarationContext:
+				if _, exists := v.BinModel.MetaDataMap[c.GetTyp().GetText()]; !exists {
+					// an alias of an entry that does not exist has no type to take over
+					v.BinModel.AddSyntaxError(&model.SyntaxError{
+						Line:   c.GetStart().GetLine(),
+						Column: c.GetStart().GetColumn(),
+						Msg:    "Unknown metadata type " + c.GetTyp().GetText() + " for " + c.GetName().GetText(),
+					})
+					continue
+				}
 				result := v.VisitRefMetaDataDeclaration(c).(model.MetaData)
 				v.BinModel.AddMetaData(result)
 			case *gen.MetaDataDeclarationContext:
